@@ -1,2 +1,229 @@
-(* C07 — request-body channel (placeholder while the correspondence is brought up). *)
-From AV Require Import Lib.Base Gen.Consts H1.Payload H1.PayloadSpec.
+(* C07 — Request-body channel (actix-http/src/h1/payload.rs): exact bytes, truthful ending,
+   no lost wake-ups. Only statements here; proofs live in H1/PayloadProofs*.v.
+
+   Vocabulary (H1/Payload.v, H1/PayloadSpec.v):
+     run e os = (s, t)   the channel created by Payload::create(e), driven by the operation
+                         history os (any length, any interleaving of both handles); s is the
+                         final state, t the trace: one event (operation, result, woken wakers)
+                         per operation.
+     ref_run q t         the reference byte queue replayed over a trace (None = contradiction):
+                         feed_data appends, unread_data puts back in front, a delivered chunk
+                         must be the front of the queue, an ending or Pending needs it empty.
+     delivered t / fed t concatenation of the chunks delivered to the reader / fed by the sender.
+   Chunks are byte strings, their length is lenN, the limit is the constant of the Rust source. *)
+From AV Require Import Lib.Base Gen.Consts H1.Payload H1.PayloadSpec H1.PayloadProofs
+  H1.PayloadProofsBytes H1.PayloadProofsEnding H1.PayloadProofsWake H1.PayloadProofsKnown.
+
+Definition LIMIT : N := H1_PAYLOAD_MAX_BUFFER_SIZE.
+Definition chunk_bytes (c : bytes) : bytes := c.
+Notation run := (run (Chunk:=bytes) lenN LIMIT).
+Notation step := (step (Chunk:=bytes) lenN LIMIT).
+Notation ref_run := (ref_run chunk_bytes).
+Notation delivered := (delivered chunk_bytes).
+Notation fed := (fed chunk_bytes).
+Notation ev := (event bytes).
+
+(* ---------------------------------------------------------------- exact bytes, in order *)
+
+(* Every trace of every history is accepted by the reference byte queue, and the queue then
+   holds exactly what the channel still buffers. *)
+Theorem C07_bytes_in_order : forall e os s t, run e os = (s, t) ->
+  exists q, ref_run [] t = Some q /\
+            forall i, inner s = Some i -> q = concat (map chunk_bytes (items i)).
+Proof. exact (bytes_in_order lenN LIMIT chunk_bytes). Qed.
+
+(* Without unread_data: delivered ++ still buffered = fed; so delivered is a prefix of fed. *)
+Theorem C07_bytes_prefix : forall e os s t, run e os = (s, t) ->
+  (forall o, In o os -> is_unread o = false) ->
+  exists q, fed t = delivered t ++ q /\
+            forall i, inner s = Some i -> q = concat (map chunk_bytes (items i)).
+Proof. exact (bytes_prefix lenN LIMIT chunk_bytes). Qed.
+
+(* ... and complete as soon as a poll reports an ending (or Pending): nothing is left behind. *)
+Theorem C07_bytes_complete : forall e os cx s t p wk,
+  run e (os ++ [OPoll cx]) = (s, t) ->
+  (forall o, In o os -> is_unread o = false) ->
+  last t (OIsDropped, RUnit, []) = (OPoll cx, RPoll p, wk) ->
+  (forall d, p <> PData d) ->
+  delivered t = fed t.
+Proof. exact (bytes_complete lenN LIMIT chunk_bytes). Qed.
+
+(* len = sum of the queued chunk lengths after every history; `self.len -= data.len()` never
+   underflows (no event of any trace is a panic). *)
+Theorem C07_len_accounting : forall e os s t, run e os = (s, t) ->
+  (forall i, inner s = Some i -> len i = sumN (map lenN (items i))) /\
+  (forall x : ev, In x t -> ev_res x <> RPanic).
+Proof. exact (len_accounting lenN LIMIT). Qed.
+
+(* ---------------------------------------------------------------- truthful ending *)
+
+(* A clean end (Ready(None)) is reported only if the end of the body was signalled: the channel
+   was created with eof = true or a feed_eof was executed earlier. *)
+Theorem C07_clean_end_truthful : forall e os s t t1 cx wk t2,
+  run e os = (s, t) -> t = t1 ++ (OPoll cx, RPoll PEnd, wk) :: t2 ->
+  e = true \/ exists x : ev, In x t1 /\ signals_eof x = true.
+Proof. exact (clean_end_truthful lenN LIMIT). Qed.
+
+(* After an executed set_error(x) — and until another error is set or one is reported — every
+   poll returns queued data or exactly Err(x); in particular never a clean end and never
+   Pending (the dispatcher's `set_error; feed_eof` yields Err, then None; never None alone). *)
+Theorem C07_error_seen : forall e os s t t1 x w1 t2 cx p w2 t3,
+  run e os = (s, t) ->
+  t = t1 ++ (OSetError x, RUnit, w1) :: t2 ++ (OPoll cx, RPoll p, w2) :: t3 ->
+  (forall y : ev, In y t2 -> reports_err y = false /\ sets_error y = false) ->
+  (exists d, p = PData d) \/ p = PErr x.
+Proof. exact (error_seen lenN LIMIT). Qed.
+
+(* The sender is dropped before any ending was signalled (created with eof = false, no executed
+   feed_eof / set_error before): no later poll ever reports a clean end, and until an error is
+   reported every poll returns queued data or exactly Err(Incomplete). *)
+Theorem C07_sender_vanished_first : forall os s t t1 w1 t2,
+  run false os = (s, t) ->
+  t = t1 ++ (OSenderDrop, RUnit, w1) :: t2 ->
+  (forall x : ev, In x t1 -> signals_eof x = false /\ sets_error x = false) ->
+  (forall x : ev, In x t2 -> ev_res x <> RPoll PEnd) /\
+  (forall t2a cx p w2 t3, t2 = t2a ++ (OPoll cx, RPoll p, w2) :: t3 ->
+     (forall x : ev, In x t2a -> reports_err x = false) ->
+     (exists d, p = PData d) \/ p = PErr EIncomplete).
+Proof. exact (sender_vanished_first lenN LIMIT). Qed.
+
+(* ---------------------------------------------------------------- reader wake-up *)
+
+(* A reader whose last poll returned Pending (with waker r), that has not polled again, was not
+   dropped and has not been woken since, is registered: task = Some r. *)
+Theorem C07_reader_registered : forall e os s t t1 r w1 t2,
+  run e os = (s, t) -> t = t1 ++ (OPoll r, RPoll PPending, w1) :: t2 -> quiet_reader r t2 ->
+  exists i, inner s = Some i /\ task i = Some r.
+Proof. exact (reader_registered lenN LIMIT). Qed.
+
+(* ... and the next executed feed_data / feed_eof / set_error wakes it. *)
+Theorem C07_reader_wakeup : forall e os s t t1 r w1 t2 o w2 t3,
+  run e os = (s, t) ->
+  t = t1 ++ (OPoll r, RPoll PPending, w1) :: t2 ++ (o, RUnit, w2) :: t3 ->
+  quiet_reader r t2 -> is_signal o = true -> In r w2.
+Proof. exact (reader_wakeup lenN LIMIT). Qed.
+
+(* Sender drop. FULL STATEMENT (false, see the refutation below): the same with
+   o = OSenderDrop for every history. Proved outside the decidable class
+   known_case e os  = "created with eof = false, and a set_error precedes the first sender drop
+                       with neither feed_eof nor a reader drop before it"
+   (known_findings.txt: drop-after-error-consumed). *)
+Theorem C07_reader_wakeup_drop_holds_outside_known : forall e os s t t1 r w1 t2 w2 t3,
+  known_case e os = false ->
+  run e os = (s, t) ->
+  t = t1 ++ (OPoll r, RPoll PPending, w1) :: t2 ++ (OSenderDrop, RUnit, w2) :: t3 ->
+  quiet_reader r t2 -> In r w2.
+Proof. exact (reader_wakeup_drop lenN LIMIT). Qed.
+
+(* Inside the class the statement fails: the reader consumes the error, polls again (Pending,
+   registered), and the drop of the sender wakes nobody — close_sender does nothing once
+   sender_closed is set. *)
+Theorem C07_refuted_drop_after_error_consumed :
+  exists e os s t t1 r w1 t2 w2 t3,
+    known_case e os = true /\
+    run e os = (s, t) /\
+    t = t1 ++ (OPoll r, RPoll PPending, w1) :: t2 ++ (OSenderDrop, RUnit, w2) :: t3 /\
+    quiet_reader r t2 /\ ~ In r w2.
+Proof.
+  exists false, [OSetError (EOther 2); OPoll 0; OPoll 0; OSenderDrop].
+  eexists. eexists.
+  exists [(OSetError (EOther 2), RUnit, []); (OPoll 0, RPoll (PErr (EOther 2)), [])], 0, [], [], [], [].
+  split; [reflexivity|]. split; [vm_compute; reflexivity|]. split; [reflexivity|].
+  split; [intros x []| intros []].
+Qed.
+
+(* What is lost inside the class, exactly: whenever a sender drop leaves a Pending reader asleep
+   (in ANY history), an earlier poll of that reader already returned an error — the reader had
+   been told how the body ended and polled past it. A reader that stops at the first error is
+   never affected. *)
+Theorem C07_unwoken_reader_was_told : forall e os s t t1 r w1 t2 w2 t3,
+  run e os = (s, t) ->
+  t = t1 ++ (OPoll r, RPoll PPending, w1) :: t2 ++ (OSenderDrop, RUnit, w2) :: t3 ->
+  quiet_reader r t2 -> ~ In r w2 ->
+  exists y : ev, In y t1 /\ reports_err y = true.
+Proof. exact (unwoken_reader_was_told lenN LIMIT). Qed.
+
+(* ---------------------------------------------------------------- feeder wake-up *)
+
+(* A feeder that was answered Pause (waker f), has not called need_read again, whose reader was
+   not dropped and that has not been woken since, is registered: io_task = Some f. *)
+Theorem C07_feeder_registered : forall e os s t t1 f w1 t2,
+  run e os = (s, t) -> t = t1 ++ (ONeedRead f, RStatus Pause, w1) :: t2 -> quiet_feeder f t2 ->
+  exists i, inner s = Some i /\ io_task i = Some f.
+Proof. exact (feeder_registered lenN LIMIT). Qed.
+
+(* ... and EVERY reader poll that pops an item or returns Pending wakes it. *)
+Theorem C07_feeder_wakeup : forall e os s t t1 f w1 t2 cx p w2 t3,
+  run e os = (s, t) ->
+  t = t1 ++ (ONeedRead f, RStatus Pause, w1) :: t2 ++ (OPoll cx, RPoll p, w2) :: t3 ->
+  quiet_feeder f t2 -> pops_or_pends p = true -> In f w2.
+Proof. exact (feeder_wakeup lenN LIMIT). Qed.
+
+(* Pause is answered only while at least LIMIT bytes are queued. *)
+Theorem C07_pause_means_full : forall e os f s t w,
+  run e (os ++ [ONeedRead f]) = (s, t) ->
+  last t (OIsDropped, RUnit, []) = (ONeedRead f, RStatus Pause, w) ->
+  exists i, inner s = Some i /\ LIMIT <= sumN (map lenN (items i)).
+Proof. exact (pause_means_full lenN LIMIT). Qed.
+
+(* The re-polling feeder (what h1::Dispatcher does: `can_read` calls need_read on every poll):
+   in the environment exec_repoll, where need_read(f) is called again whenever waker f fires,
+   after ANY history the feeder believes "Pause" only while the channel really has need_read =
+   false, holds its waker, and buffers at least LIMIT bytes. No state "paused, below the limit,
+   nobody will wake me" is reachable. (If the reader was dropped, inner s = None: see
+   C07_reader_drop_wakes_nobody.) *)
+Theorem C07_feeder_repolling : forall e f os,
+  (forall cx, In (ONeedRead cx) os -> cx = f) ->
+  let '(s, la) := exec_repoll (Chunk:=bytes) lenN LIMIT f e os in
+  la = Some Pause -> sender s = true ->
+  forall i, inner s = Some i ->
+    need_read i = false /\ io_task i = Some f /\ LIMIT <= sumN (map lenN (items i)).
+Proof. exact (feeder_repolling lenN LIMIT). Qed.
+
+(* ... and it observes Read at the first poll that leaves fewer than LIMIT bytes queued: that
+   poll wakes f, and the need_read it triggers answers Read. *)
+Theorem C07_feeder_resumes : forall f s cx s' d w i i',
+  SInv lenN LIMIT s -> sender s = true -> inner s = Some i -> need_read i = false -> io_task i = Some f ->
+  step s (OPoll cx) = (s', RPoll (PData d), w) -> inner s' = Some i' -> len i' < LIMIT ->
+  In f w /\ exists w', step s' (ONeedRead f) = (s', RStatus Read, w').
+Proof. exact (feeder_resumes lenN LIMIT). Qed.
+
+(* Observation (outside the property's statement, recorded because it is a wake-up that does
+   not happen): dropping the reader frees Inner and wakes nobody, a paused feeder included. *)
+Theorem C07_reader_drop_wakes_nobody : forall s s' x w,
+  step s OReaderDrop = (s', x, w) -> w = [].
+Proof.
+  intros [[i|] snd] s' x w H; cbn in H; inversion H; reflexivity.
+Qed.
+
+(* ---------------------------------------------------------------- non-vacuity *)
+
+(* a 40 000-byte chunk, described structurally as (fill byte, length): the model only looks at
+   the length of a chunk (same instance as the correspondence driver Run/RunC07.v) *)
+Definition big : N * N := (7, 40000).
+
+(* 40 000-byte feed, pause, drain, resume, clean end: exercises Pause / registration / wake of
+   the feeder (waker 1) by the pop, Pending / registration / wake of the reader (waker 0) by
+   feed_eof, and the truthful clean end. *)
+Example C07_example :
+  snd (Payload.run (Chunk:=N * N) snd LIMIT false
+         [ONeedRead 1; OFeedData big; ONeedRead 1; OPoll 0; ONeedRead 1; OPoll 0; OFeedEof; OPoll 0]) =
+  [ (ONeedRead 1, RStatus Read, []);
+    (OFeedData big, RUnit, []);
+    (ONeedRead 1, RStatus Pause, []);
+    (OPoll 0, RPoll (PData big), [1]);
+    (ONeedRead 1, RStatus Read, []);
+    (OPoll 0, RPoll PPending, []);
+    (OFeedEof, RUnit, [0]);
+    (OPoll 0, RPoll PEnd, []) ].
+Proof. vm_compute. reflexivity. Qed.
+
+(* the hypotheses of C07_error_seen / C07_sender_vanished_first are met by real histories *)
+Example C07_example_endings :
+  snd (run false [OFeedData [1; 2]; OSetError EIncomplete; OFeedEof; OPoll 0; OPoll 0; OPoll 0]) =
+  [ (OFeedData [1; 2], RUnit, []); (OSetError EIncomplete, RUnit, []); (OFeedEof, RUnit, []);
+    (OPoll 0, RPoll (PData [1; 2]), []); (OPoll 0, RPoll (PErr EIncomplete), []); (OPoll 0, RPoll PEnd, []) ] /\
+  snd (run false [OPoll 2; OSenderDrop; OPoll 2; OPoll 2]) =
+  [ (OPoll 2, RPoll PPending, []); (OSenderDrop, RUnit, [2]);
+    (OPoll 2, RPoll (PErr EIncomplete), []); (OPoll 2, RPoll PPending, []) ].
+Proof. split; vm_compute; reflexivity. Qed.
